@@ -478,7 +478,13 @@ def guards_of(T, target, removed=(), entry=0):
         if sf is None:
             continue
         dt, edges = sf
-        out.append((dt, edges.get(s, []), bi))
+        labels = edges.get(s, [])
+        # `if !cond` / a helper returning `!x.is_empty()`: a guard on Not(c) with truth b is a guard on c with truth !b
+        nd = norm(dt)
+        while nd[0] == 'un' and nd[1] == 'Not' and all(l[0] == 'bool' for l in labels):
+            labels = [('bool', not l[1]) for l in labels]
+            dt = nd = nd[2]
+        out.append((dt, labels, bi))
     return out
 
 
